@@ -476,6 +476,108 @@ def float_cases(count, rng):
     return cases
 
 
+# magnitude sweep: largest |binary exponent| per clause family such that every sum, product and square of the
+# clause stays a NORMAL number (no overflow, no underflow/subnormal), i.e. inside the property's quantifier:
+#   lin    +,-,average, scalar * and /        results within 2^(2R+2)
+#   dot    products of two components         >= 2^(-2R)
+#   cross  (a x b).a: products of three, the cancelled component >= ulp: >= 2^(-3R-53) (f64) / 2^(-3R-24) (f32)
+#   orient product of two cancelled differences >= 2^(-2R-104) / 2^(-2R-46)
+#   dir    squares and their sum (Vector3::norm) within 2^(+-(2R+4))
+SWEEP = {"f64": {"lin": 480, "dot": 480, "cross": 280, "orient": 400, "dir": 480},
+         "f32": {"lin": 60, "dot": 50, "cross": 24, "orient": 28, "dir": 60}}
+
+
+def sfloat(rng, ty, k):
+    """+-m * 2^k with m in [1,2): a normal float of the type with binary exponent k"""
+    if rng.random() < 0.25:
+        m = rng.choice([1.0, 1.5, 1.25, 1.75])
+    elif ty == "f64":
+        m = 1.0 + rng.getrandbits(52) / 2.0 ** 52
+    else:
+        m = 1.0 + rng.getrandbits(23) / 2.0 ** 23
+    return rng.choice([1.0, -1.0]) * math.ldexp(m, k)
+
+
+def scomps(rng, ty, n, R, allow_zero=True):
+    """n components: all at one scale 2^k, or mixed scales, k spread over [-R, R] (extremes included);
+    optionally one component replaced by an exact (signed) zero"""
+    def pick():
+        r = rng.random()
+        return -R if r < 0.04 else R if r < 0.08 else rng.randint(-R, R)
+    mode = rng.random()
+    if mode < 0.5:
+        k = pick()
+        xs = [sfloat(rng, ty, k) for _ in range(n)]
+    else:
+        xs = [sfloat(rng, ty, pick()) for _ in range(n)]
+    if allow_zero and rng.random() < 0.2:
+        xs[rng.randrange(n)] = rng.choice([0.0, -0.0])
+    return xs
+
+
+def scaled_cases(count, rng):
+    """the float clauses over many decades of magnitude (see SWEEP)"""
+    cases = []
+    for ty in ("f64", "f32"):
+        R = SWEEP[ty]
+        for k in range(count):
+            # directions first: the guard on the null vector must not depend on the magnitude
+            a = scomps(rng, ty, 2, R["dir"])
+            a3 = scomps(rng, ty, 3, R["dir"])
+            cases.append(Case(f"{ty}-sdir-{k}", [geof_line(ty, "v2unitdir", a), geof_line(ty, "v2normaldir", a),
+                                                 geof_line(ty, "v3unitdir", a3)],
+                              oracle="f-dir", meta={"sig": "unit_dir/normal_dir", "ty": ty}))
+            for base, variants in COMPOUND.items():
+                ar = ARITY[base]
+                args = scomps(rng, ty, ar, R["lin"])
+                if base.endswith("div"):
+                    while args[-1] == 0.0:
+                        args[-1] = sfloat(rng, ty, rng.randint(-R["lin"], R["lin"]))
+                lines = [geof_line(ty, base, args)] + [geof_line(ty, v, args) for v in variants]
+                cases.append(Case(f"{ty}-scmp-{base}-{k}", lines, oracle="f-compound",
+                                  meta={"sig": f"compound:{base}", "base": base, "ty": ty}))
+            a, b = scomps(rng, ty, 2, R["lin"]), scomps(rng, ty, 2, R["lin"])
+            a3, b3 = scomps(rng, ty, 3, R["lin"]), scomps(rng, ty, 3, R["lin"])
+            cases.append(Case(f"{ty}-sselfsub-{k}", [geof_line(ty, "v2sub", a + a), geof_line(ty, "p2sub", a + a),
+                                                     geof_line(ty, "v3sub", a3 + a3), geof_line(ty, "p3sub", a3 + a3)],
+                              oracle="f-selfsub", meta={"sig": "v-v", "ty": ty}))
+            cases.append(Case(f"{ty}-saddsub-{k}", [geof_line(ty, "v2addsub", a + b), geof_line(ty, "p2addsub", a + b),
+                                                    geof_line(ty, "v3addsub", a3 + b3), geof_line(ty, "p3addsub", a3 + b3)],
+                              oracle="f-addsub", meta={"sig": "(v+u)-v", "ty": ty}))
+            cases.append(Case(f"{ty}-savg-{k}", [geof_line(ty, "p2average", a + b), geof_line(ty, "p2average", b + a),
+                                                 geof_line(ty, "p3average", a3 + b3), geof_line(ty, "p3average", b3 + a3)],
+                              oracle="f-avg", meta={"sig": "average", "ty": ty}))
+            a, b = scomps(rng, ty, 2, R["dot"]), scomps(rng, ty, 2, R["dot"])
+            a3, b3 = scomps(rng, ty, 3, R["dot"]), scomps(rng, ty, 3, R["dot"])
+            cases.append(Case(f"{ty}-sdot-{k}", [geof_line(ty, "v2dot", a + b), geof_line(ty, "v2dot", b + a),
+                                                 geof_line(ty, "v3dot", a3 + b3), geof_line(ty, "v3dot", b3 + a3)],
+                              oracle="f-dot", meta={"sig": "dot-symmetric", "ty": ty}))
+            kk = rng.randint(-R["cross"], R["cross"])
+            if rng.random() < 0.6:
+                a3, b3 = [sfloat(rng, ty, kk) for _ in range(3)], [sfloat(rng, ty, kk) for _ in range(3)]
+            else:
+                a3, b3 = scomps(rng, ty, 3, R["cross"]), scomps(rng, ty, 3, R["cross"])
+            cases.append(Case(f"{ty}-scross-{k}", [geof_line(ty, "v3cross", a3 + b3), geof_line(ty, "v3cross", b3 + a3),
+                                                   geof_line(ty, "v3crossdot", a3 + b3)],
+                              oracle="f-cross", meta={"sig": "cross", "ty": ty}))
+            p, q = scomps(rng, ty, 2, R["orient"], allow_zero=False), scomps(rng, ty, 2, R["orient"], allow_zero=False)
+            if rng.random() < 0.5:
+                r = scomps(rng, ty, 2, R["orient"])
+            else:
+                kk = rng.randint(-R["orient"], R["orient"])
+                p, q = [sfloat(rng, ty, kk) for _ in range(2)], [sfloat(rng, ty, kk) for _ in range(2)]
+                t = rng.choice([0.5, 2.0, -1.0, 0.25, 3.0])
+                r = [rnd(ty, q[0] + t * (q[0] - p[0])), rnd(ty, q[1] + t * (q[1] - p[1]))]
+                for i in range(2):
+                    if rng.random() < 0.6:
+                        r[i] = nudge(ty, r[i], rng.randint(-3, 3))
+                if any(x != 0.0 and abs(x) < math.ldexp(1.0, -R["orient"] - 2) for x in r):
+                    r = scomps(rng, ty, 2, R["orient"])   # cancelled below the sweep: outside the domain
+            cases.append(Case(f"{ty}-sorient-{k}", [geof_line(ty, "p2orient", p + q + r), geof_line(ty, "p2orient", p + r + q)],
+                              oracle="f-orient", meta={"sig": "orientation", "ty": ty}))
+    return cases
+
+
 def nudge(ty, x, k):
     """move x by k ulps"""
     if k == 0 or x == 0.0:
@@ -874,6 +976,7 @@ def skew_tie(cases):
 def run(tier, seed):
     rng = random.Random(seed)
     n_exact, n_float, n_skew = (1500, 1000, 600) if tier == "quick" else (20000, 15000, 6000)
+    n_scaled = 500 if tier == "quick" else 6000
     parts = []
     ex = exact_cases(n_exact, rng)
     r1 = hv.campaign(ex, oracle_exact)
@@ -884,12 +987,12 @@ def run(tier, seed):
             ops[key] = ops.get(key, 0) + 1
     r1["stats"]["ops"] = ops
     parts.append(("exact: geo operators, model vs implementation + exact oracle", r1))
-    fl = float_cases(n_float, rng)
+    fl = float_cases(n_float, rng) + scaled_cases(n_scaled, rng)
     r2 = impl_campaign(fl, oracle_float)
     in_band = sum(c.meta.get("in_band", 0) for c in fl)
     n_or = sum(2 for c in fl if c.oracle == "f-orient")
     r2["notes"] = [f"float stream: {n_or} orientation evaluations, {in_band} inside the rounding band (no sign requirement there)"]
-    parts.append(("float: random f64/f32, implementation only", r2))
+    parts.append(("float: random f64/f32 (moderate magnitudes + sweep over 2^+-480 / 2^+-60), implementation only", r2))
     sk = skew_cases(n_skew, rng)
     r3 = impl_campaign(sk, oracle_skew)
     neg = sum(c.meta.get("negative", 0) for c in sk)
